@@ -20,9 +20,42 @@ are sampled.  Oracle clauses (one counter per engine and clause):
   stable      a spelling resolves to an equal object before and after the
               other resolutions of the run (a resolution must not re-register
               types: the pandas engine used to import the duplicate module
-              pandera.engines.pyarrow_engine lazily)
+              pandera.engines.pyarrow_engine lazily); param-stable: the same
+              for the first 600 sampled parameterisations per engine and
+              shard, re-resolved in reverse order (caches keyed on a native
+              dtype whose equality is coarser than the type's)
+  construct   a pandera data type built with valid parameters (A.Make thunks:
+              the monitor builds them, a constructor that raises is a family
+              member that does not resolve, never a harness crash)
+  boxes       a parameterised native dtype instance resolves to a type whose
+              ``type`` is that native dtype, compared order-sensitively for
+              categories and by tzinfo object for time zones (reference:
+              "type: native dtype boxed by the data type")
 
-Not judged (counted under ``undecided:*``): print/resolve round trip of
+Sampled input classes (counters ``paramclass:*``, all floored): decimal
+(precision, scale) with the corners scale == precision, scale == 0,
+precision == 1, precision == max drawn as often as the interior (pandas,
+pyarrow, polars, pyspark, and the abstract pandera.dtypes.Decimal instance
+where the engine registers that class); tz arguments of every kind of object
+pandas accepts (zone name, canonical pytz zone, non-canonical pytz tzinfo
+taken from a localized Timestamp / localize() / an aware datetime, zoneinfo,
+dateutil zone / offset / utc, datetime.timezone, pytz.FixedOffset, int seconds,
+offset string, the UTC singletons), two objects for one zone in one family
+when pandas standardises them to the same tzinfo; categories as listed,
+subset, permuted, reversed, empty, None, list and tuple; polars Array width 0
+and 1-3 dimensional shapes, nested inner types; pyarrow list size 0 / binary
+length 0 / negative decimal scale; pandas string aliases of period / sparse /
+interval natives; the engine-type constructors of every Arrow class.
+
+Not judged (counted under ``undecided:*``): whether a printed time-zone name
+resolves back to the same *tzinfo implementation* (pandas reads
+'datetime64[ns, UTC]' as datetime.timezone.utc and calls it equal to pytz.utc
+/ ZoneInfo('UTC'); decided on the native dtype's own name, never on what
+pandera prints); whether an engine type built with a parameter in another
+form (Period(freq="M") vs the offset object, Sparse / Interval given a dtype
+name) equals the resolution of the native dtype; a time-zone-agnostic
+DateTime asked to check another type without data (raises); tz arguments
+pandas itself rejects; print/resolve round trip of
 Decimal, parameterised Category, Period / Sparse / Interval / pydantic /
 python-generic types, pyarrow nested / binary / decimal / dictionary types and
 of names pandas itself cannot parse back; datetime units other than "ns" in the
@@ -41,20 +74,28 @@ from ..evidence import Run
 PID = "C09"
 REPLAY_RERUNS_TIER = True   # exhaustive registry enumeration, ~1 s
 SHARDS = {"quick": 1, "thorough": 4}
-N_PARAM = {"quick": 1200, "thorough": 16000}
+N_PARAM = {"quick": 16000, "thorough": 160000}
+PARAM_SNAPSHOT = 600        # spellings re-resolved at the end, per engine/shard
 
 
 def new_run():
     return Run(
         PID, "exploration",
         "case = one spelling (registry key, registered class, dispatch native, "
-        "documented family, numpy alias, sampled parameterisation) or one "
+        "documented family, numpy alias, sampled parameterisation with all its "
+        "spellings: native instance, engine-type constructor, abstract pandera "
+        "instance, pandas string alias) or one "
         "ordered pair of physical types, per engine; non-trivial = the spelling "
         "resolved to a DataType and at least one clause was judged on it (pairs: "
         "always); distinct = hash of (engine, clause group, address-free repr "
         "of the spelling / pair)",
         ["native (kind, signedness, width) taken from numpy / pandas / pyarrow "
          "/ polars / pyspark themselves",
+         "a parameterisation is valid when the native library builds it "
+         "(pd.DatetimeTZDtype(tz=..), pyarrow.decimal128, pl.Decimal, "
+         "pst.DecimalType; python decimal: 1 <= precision, 0 <= scale <= "
+         "precision); which tzinfo objects are one zone is pandas' own "
+         "standardisation (same tzinfo object after DatetimeTZDtype)",
          "documented-equivalence table transcribed by hand from "
          "docs/source/dtype_validation.md, polars.md, pyspark_sql.md, "
          "reference/dtypes.rst (pvm/c09_engines.py)",
@@ -91,6 +132,7 @@ class Ctx9:
         self.seen_types = {}       # tdesc -> t   (type-level clauses once)
         self.physical = {}         # tdesc -> (t, class)
         self.snapshot = {}         # desc(k) -> (k, t)
+        self.param_snapshot = {}   # same for sampled parameterisations
         self.pa_at_start = "pandera.engines.pyarrow_engine" in sys.modules
         self._sampled = set()
 
@@ -143,6 +185,11 @@ BY_CLASS = [
     ("pandas", ("unhashable",),
      lambda r: r.split(".", 1)[-1].startswith("ArrowStruct("),
      "arrow-struct-fields-list-unhashable"),
+    ("pandas", ("unhashable",),
+     lambda r: r.startswith("pandas_engine.DateTime(") and
+     any(x in r for x in ("tzfile(", "tzutc(", "tzoffset(", "tzlocal(",
+                          "tzrange(", "tzstr(")),
+     "pandas-datetime-dateutil-tzinfo-unhashable"),
     ("pandas", ("self-check-false",),
      lambda r: r.startswith("pandas_engine.Python"),
      "pandas-python-generic-self-check-false"),
@@ -167,6 +214,21 @@ def _is_arrow_alias(d):
     return d.startswith("str:") and d.endswith("[pyarrow]'")
 
 
+def _polars_array_outer_dim_changed(d, r):
+    """native pl.Array with more than one dimension whose resolution prints
+    another outermost shape"""
+    import re
+    if not d.startswith("polars.datatypes.classes.Array:"):
+        return False
+    a = re.search(r"shape=\(([^)]*)\)", d)
+    b = re.search(r"shape=\(([^)]*)\)", r)
+    if not a or not b:
+        return False
+    da = [x for x in a.group(1).split(",") if x.strip()]
+    db = [x for x in b.group(1).split(",") if x.strip()]
+    return len(da) > 1 and len(da) == len(db) and da != db and da[1:] == db[1:]
+
+
 # hypotheses for family-like violations: (mechanism, engine, member predicate)
 # a member is (desc, printed result, unresolved?)
 FAMILY_HYP = [
@@ -181,6 +243,17 @@ FAMILY_HYP = [
      lambda d, r, u, w: d == "str:'string[pyarrow]'" and "ArrowString" in r),
     ("pandas-arrow-parameterised-string-alias-not-resolved", "pandas",
      lambda d, r, u, w: _is_arrow_alias(d) and u),
+    ("abstract-instance-fields-fed-to-engine-constructor", "pandas",
+     lambda d, r, u, w: d.startswith("pandera.dtypes.Decimal:") and u and
+     "ConstructionRaised" not in r),
+    ("abstract-instance-fields-fed-to-engine-constructor", "polars",
+     lambda d, r, u, w: d.startswith("pandera.dtypes.Decimal:") and u and
+     "ConstructionRaised" not in r),
+    ("abstract-instance-fields-fed-to-engine-constructor", "polars",
+     lambda d, r, u, w: d.startswith("pandera.dtypes.Category:") and u and
+     "ConstructionRaised" not in r),
+    ("polars-array-multidim-outer-dimension-replaced", "polars",
+     lambda d, r, u, w: _polars_array_outer_dim_changed(d, r)),
     ("pyarrow-engine-import-reregisters-arrow-dtypes", "pandas",
      lambda d, r, u, w: r.startswith("pyarrow_engine.") and
      w.get("pyarrow_engine_imported_during_run")),
@@ -201,6 +274,13 @@ def mechs(engine, kind, w):
             ".pandas_engine.Arrow" in w.get("before", "") and \
             ".pyarrow_engine.Arrow" in w.get("after", ""):
         return ["pyarrow-engine-import-reregisters-arrow-dtypes"]
+    if kind == "resolved-type-does-not-box-the-native-dtype" and engine == "pandas":
+        import re
+        a = re.fullmatch(r".*IntervalDtype:interval\[(.*), (left|right|both|neither)\]",
+                         w.get("expected_native", ""))
+        b = re.fullmatch(r".*IntervalDtype:interval\[(.*)\]", w.get("boxed") or "")
+        if a and b and a.group(1) == b.group(1):
+            return ["pandas-interval-closed-side-dropped"]
     groups = w.get("_groups")
     if groups is None:
         return [None]
@@ -254,6 +334,14 @@ def viol(cx, kind, w):
 # clauses
 # ---------------------------------------------------------------------------
 def resolve(cx, k, group):
+    """Build the spelling when pandera builds it (A.Make), then resolve it.
+    Returns the DataType or the exception (never raises)."""
+    if isinstance(k, A.Make):
+        cx.c("construct")
+        ok, k = A.unwrap(k)
+        if not ok:
+            cx.c("construct_raised")
+            return k
     ok, t = safe(cx.ad.E.dtype, k)
     from pandera.dtypes import DataType
     if ok and isinstance(t, DataType):
@@ -271,6 +359,29 @@ def _eqh(a, b):
         return False
     okh, rh = safe(lambda: hash(a) == hash(b))
     return bool(rh) if okh else True      # unhashable is reported on its own
+
+
+def boxes_clause(cx, k, t):
+    """A *parameterised* native dtype instance resolves to a type that boxes
+    that very native dtype (same parameters: category order, tzinfo, shape,
+    precision/scale, unit).  Not applied to the keys of the equivalents
+    table: an engine may declare one native an alias of another there
+    (pyspark TimestampNTZType -> Timestamp)."""
+    ok, k = A.unwrap(k)
+    if not ok:
+        return
+    ok, want = safe(cx.ad.boxed_native, k)
+    if not ok or want is None:
+        return
+    cx.c("boxes")
+    got = getattr(t, "type", None)
+    if not A.same_native(got, want):
+        viol(cx, "resolved-type-does-not-box-the-native-dtype",
+             {"spelling": A.desc(k), "resolved": A.tdesc(t),
+              "boxed": A.desc(got) if got is not None else None,
+              "expected_native": A.desc(want),
+              "_groups": [[("<the native dtype>", A.desc(want), False)],
+                          [(A.desc(k), A.tdesc(t), False)]]})
 
 
 def type_clauses(cx, t, origin):
@@ -336,13 +447,15 @@ def type_clauses(cx, t, origin):
 def family_clause(cx, label, spellings, expect_class=None, group="family"):
     ad = cx.ad
     res = [(k, resolve(cx, k, group)) for k in spellings]
-    good = [(k, t) for k, t in res if not isinstance(t, Exception)]
+    good = [(A.unwrap(k)[1], t) for k, t in res if not isinstance(t, Exception)]
     unres = [(k, t) for k, t in res if isinstance(t, Exception)]
     cx.c(group)
     members = [[A.desc(k), (A.tdesc(t) if not isinstance(t, Exception)
                             else "EXC " + exc_s(t))] for k, t in res]
     for k, t in good:
         type_clauses(cx, t, f"{group}:{label}")
+        if group == "param-family":
+            boxes_clause(cx, k, t)
     groups = []
     for k, t in good:
         for g in groups:
@@ -413,7 +526,10 @@ def registry_phase(cx):
     # 2. registered classes
     classes = sorted(ad.E._registered_dtypes, key=lambda c: (c.__module__, c.__qualname__))
     cx.c("registry_classes", len(classes))
-    cp = ad.class_params()
+    ok, cp = safe(ad.class_params)
+    if not ok:
+        complete, cp = False, {}
+        run.note_inconclusive(f"{ad.name}: adapter class_params raised {exc_s(cp)}")
     for C in classes:
         cd = A.desc(C)
         ok, t = safe(ad.E.dtype, C)
@@ -437,11 +553,11 @@ def registry_phase(cx):
                     "adapter has no sample for it")
                 continue
             for x in insts:
-                run.case(["class-inst", ad.name, A.tdesc(x)], True)
+                run.case(["class-inst", ad.name, A.desc(x)], True)
                 t2 = resolve(cx, x, "registered-class-instance")
                 if isinstance(t2, Exception):
                     viol(cx, "instance-does-not-resolve",
-                         {"spelling": A.tdesc(x), "exc": exc_s(t2)})
+                         {"spelling": A.desc(x), "exc": exc_s(t2)})
                 else:
                     type_clauses(cx, t2, f"class-inst:{cd}")
         else:
@@ -452,7 +568,10 @@ def registry_phase(cx):
     # 3. dispatch table: every registered native class, sampled instances
     natives = [c for c in reg.dispatch.registry if c is not object]
     cx.c("registry_dispatch_classes", len(natives))
-    ds = ad.dispatch_samples()
+    ok, ds = safe(ad.dispatch_samples)
+    if not ok:
+        run.note_inconclusive(f"{ad.name}: adapter dispatch_samples raised {exc_s(ds)}")
+        ds = {}
     for D in natives:
         insts = ds.get(D)
         if not insts:
@@ -470,13 +589,19 @@ def registry_phase(cx):
                 viol(cx, "dispatch-native-does-not-resolve",
                      {"spelling": xd, "exc": exc_s(t), "bad": [xd]})
                 continue
-            cx.snapshot[xd] = (x, t)
+            cx.snapshot[xd] = (A.unwrap(x)[1], t)
             type_clauses(cx, t, f"dispatch:{xd}")
+            boxes_clause(cx, x, t)
     return complete
 
 
 def families_phase(cx):
-    for label, spellings in cx.ad.families():
+    ok, fams = safe(cx.ad.families)
+    if not ok:
+        cx.run.note_inconclusive(
+            f"{cx.ad.name}: adapter families raised {exc_s(fams)}")
+        return
+    for label, spellings in fams:
         good = family_clause(cx, label, spellings)
         cx.run.case(["family", cx.ad.name, label,
                      [A.desc(k) for k in spellings]], True,
@@ -487,7 +612,12 @@ def families_phase(cx):
 
 
 def alias_phase(cx):
-    for a, want in cx.ad.alias_probes():
+    ok, probes = safe(cx.ad.alias_probes)
+    if not ok:
+        cx.run.note_inconclusive(
+            f"{cx.ad.name}: adapter alias_probes raised {exc_s(probes)}")
+        return
+    for a, want in probes:
         t = resolve(cx, a, "numpy-alias")
         judged = not isinstance(t, Exception)
         cx.run.case(["alias", cx.ad.name, a], judged)
@@ -520,7 +650,12 @@ def pairs_phase(cx):
                                 if safe(t1.check, t)[0] and truthy(safe(t1.check, t)[1])),
                             "out_of": len(phys)}) if c1[0] == "int" else None)
             if not ok:
-                if d1 != d2:
+                if getattr(t1, "time_zone_agnostic", False):
+                    # what such a type recognises depends on the data, which
+                    # a type-to-type check does not have: not judged
+                    cx.c("undecided:pair-check-raises:time-zone-agnostic-"
+                         "datetime-without-data")
+                elif d1 != d2:
                     viol(cx, "pair-check-raises",
                          {"t1": d1, "t2": d2, "exc": exc_s(r)})
                 continue
@@ -534,9 +669,17 @@ def pairs_phase(cx):
 
 
 def stable_phase(cx):
-    for kd, (k, t0) in sorted(cx.snapshot.items()):
+    """Every spelling recorded earlier is resolved again after everything
+    else, registry spellings in sorted order and the sampled
+    parameterisations in the reverse of the order they were first met: a
+    resolution must not depend on what was resolved before it (caches keyed
+    on a native dtype, lazy re-registration)."""
+    todo = [("stable", kd, k, t0) for kd, (k, t0) in sorted(cx.snapshot.items())]
+    todo += [("param-stable", kd, k, t0)
+             for kd, (k, t0) in reversed(list(cx.param_snapshot.items()))]
+    for counter, kd, k, t0 in todo:
         ok, t1 = safe(cx.ad.E.dtype, k)
-        cx.c("stable")
+        cx.c(counter)
         w = {"spelling": kd, "before": type(t0).__module__ + "." + A.tdesc(t0)}
         if not ok:
             viol(cx, "resolution-changed-during-run",
@@ -552,11 +695,23 @@ def stable_phase(cx):
 def params_phase(cx, ctx, idxs):
     for i in idxs:
         rng = ctx.rng(PID, cx.ad.name, i)
-        fam = cx.ad.param_family(rng)
+        ok, fam = safe(cx.ad.param_family, rng)
+        if not ok:
+            # the generator only calls the native libraries (pandera calls are
+            # A.Make thunks): not an observation of pandera, no verdict
+            cx.c("generator_raised")
+            cx.run.note_inconclusive(
+                f"{cx.ad.name}: parameter generator raised {exc_s(fam)} (case {i})")
+            continue
         if fam is None:
             return
         cx.c("param_cases")
         cx.c("param:" + fam["label"].split("[")[0])
+        for cl in fam.get("classes", ()):
+            cx.c(cl if cl.startswith("undecided:") else "paramclass:" + cl)
+        if not fam["spellings"]:
+            cx.run.case(["param", cx.ad.name, fam["label"], []], False)
+            continue
         if fam.get("class_only"):
             cx.run.case(["param", cx.ad.name, fam["label"],
                          [A.desc(k) for k in fam["spellings"]]], True)
@@ -574,6 +729,25 @@ def params_phase(cx, ctx, idxs):
             continue
         good = family_clause(cx, fam["label"], fam["spellings"],
                              fam.get("expect_class"), group="param-family")
+        if len(cx.param_snapshot) < PARAM_SNAPSHOT:
+            for k, t in good:
+                cx.param_snapshot.setdefault(A.desc(k), (k, t))
+        for k in fam.get("also", ()):
+            # an engine type built with a parameter in another form (a name
+            # instead of the object pandas makes of it): must resolve and obey
+            # the per-type clauses; equality with the family is not promised
+            t = resolve(cx, k, "param-also")
+            if isinstance(t, Exception):
+                viol(cx, "param-does-not-resolve",
+                     {"spelling": A.desc(k), "exc": exc_s(t),
+                      "family": fam["label"]})
+                continue
+            type_clauses(cx, t, f"param-also:{fam['label']}")
+            if good and not _eqh(good[0][1], t):
+                cx.c("undecided:built-with-unnormalised-parameter-unequal-to-"
+                     "native-resolution")
+            else:
+                cx.c("also-equal-to-family")
         cx.run.case(["param", cx.ad.name, fam["label"],
                      [A.desc(k) for k in fam["spellings"]]], True,
                     sample=cx.sample("param", lambda: dict(
@@ -641,6 +815,56 @@ def _floors(run, ctx):
             run.floors[f"{eng}:roundtrip"] = rt
         if alias is not None:
             run.floors[f"{eng}:alias"] = alias
+    # input classes of the sampled parameterisations (quick tier, seeds 0 and
+    # 3, about a quarter of the smaller observation)
+    classes = {
+        "pandas": {
+            "boxes": 1300, "construct": 1500, "param-stable": 150,
+            "resolve:param-also": 90,
+            "paramclass:decimal:scale==precision": 20,
+            "paramclass:decimal:scale==0": 20,
+            "paramclass:decimal:precision==1": 5,
+            "paramclass:decimal:precision==max": 5,
+            "paramclass:abstract-parameterised-instance": 75,
+            "paramclass:tzclass:name": 15,
+            "paramclass:tzclass:pytz-zone": 15,
+            "paramclass:tzclass:pytz-from-timestamp": 15,
+            "paramclass:tzclass:pytz-from-localize": 12,
+            "paramclass:tzclass:pytz-from-aware-datetime": 15,
+            "paramclass:tzclass:pytz-utc": 10,
+            "paramclass:tzclass:pytz-fixed": 10,
+            "paramclass:tzclass:zoneinfo": 20,
+            "paramclass:tzclass:dateutil-zone": 10,
+            "paramclass:tzclass:fixed-datetime": 15,
+            "paramclass:tzclass:int-seconds": 10,
+            "paramclass:tzclass:offset-string": 15,
+            "paramclass:tz-two-objects-one-zone": 60,
+            "paramclass:tz-printed-name-in-family": 55,
+            "paramclass:cat:permuted": 25, "paramclass:cat:reversed": 10,
+            "paramclass:cat:none": 10, "paramclass:cat:empty": 5,
+            "paramclass:cat:ordered=True": 30,
+        },
+        "polars": {
+            "boxes": 850, "construct": 1400, "param-stable": 150,
+            "paramclass:decimal:scale==precision": 15,
+            "paramclass:decimal:scale==0": 15,
+            "paramclass:decimal:precision==1": 5,
+            "paramclass:abstract-parameterised-instance": 170,
+            "paramclass:array:unequal-dimensions": 28,
+            "paramclass:array:width==0": 6,
+            "paramclass:enum:empty": 5, "paramclass:cat:permuted": 25,
+        },
+        "pyspark": {
+            "boxes": 1000, "construct": 1000, "param-stable": 150,
+            "paramclass:decimal:scale==precision": 90,
+            "paramclass:decimal:scale==0": 90,
+            "paramclass:decimal:precision==1": 25,
+            "paramclass:decimal:precision==max": 25,
+        },
+    }
+    for eng, d in classes.items():
+        for name, n in d.items():
+            run.floors[f"{eng}:{name}"] = n
 
 
 def finalize(run, ctx):
